@@ -1,6 +1,8 @@
 package vfn
 
 import (
+	"github.com/cube2222/octosql/functions"
+	"github.com/cube2222/octosql/logical"
 	"github.com/cube2222/octosql/octosql"
 	"github.com/cube2222/octosql/physical"
 	"github.com/cube2222/octosql/zzverif"
@@ -80,4 +82,61 @@ func VerifC11IsNull() {
 	zzverif.Reach("evaluated")
 	zzverif.Assert(r.TypeID == octosql.TypeIDBoolean, "is-null-never-returns-null")
 	zzverif.Assert(r.Boolean == (isNull(v) != negated), "is-null-answer")
+}
+
+// VerifC11StrictMixed: as VerifC11Strict, but only SOME arguments have nullable static types (every
+// non-empty subset of the positions, forked), the others are non-nullable, and NULLs are placed at
+// a non-empty subset of the nullable positions: the null checks Materialize computes are then a
+// proper subset of the argument positions (a nullable argument AFTER a non-nullable one included).
+func VerifC11StrictMixed() {
+	setup()
+	fm := functions.FunctionMap()
+	names := functionNames()
+	name := names[zzverif.Choice("fn", len(names))]
+	if fn := zzverif.Param("FN"); fn >= 0 {
+		name = names[fn]
+	}
+	offered := arities(fm[name])
+	n := 2 + zzverif.Choice("arity", zzverif.Param("AR")-1)
+	if !offered[n] {
+		return
+	}
+	nullable := 1 + zzverif.Choice("nullable-positions", 1<<uint(n)-2) // non-empty, not all
+	types := make([]octosql.Type, n)
+	for i := range types {
+		types[i] = ndArgType(argName(i), zzverif.Param("TS"))
+		if nullable&(1<<uint(i)) != 0 {
+			types[i] = vx.Nullable(types[i])
+		}
+	}
+	expr, oc := typecheck(logical.NewFunctionExpression(name, vars(n)), types)
+	if oc != tcOK || !expr.FunctionCall.FunctionDescriptor.Strict {
+		return
+	}
+	zzverif.Reach("accepted-strict")
+	vals := make([]octosql.Value, n)
+	anyNull := false
+	for i := range vals {
+		if nullable&(1<<uint(i)) != 0 && zzverif.Choice(argName(i)+".null", 2) == 1 {
+			vals[i] = octosql.NewNull()
+			anyNull = true
+		} else {
+			vals[i] = vx.ValueOfType(argName(i), octosql.NonNullable(types[i]), zzverif.Param("E"), zzverif.Param("S"))
+		}
+	}
+	if !anyNull {
+		return
+	}
+	r, err := eval(expr, types, vals)
+	asserted := false
+	for i := range expr.FunctionCall.Arguments {
+		if expr.FunctionCall.Arguments[i].ExpressionType == physical.ExpressionTypeTypeAssertion && vals[i].TypeID != octosql.TypeIDNull {
+			asserted = true
+		}
+	}
+	if err != nil {
+		zzverif.Assert(asserted, "error-only-from-type-assertion-on-non-null-argument")
+		return
+	}
+	zzverif.Assert(isNull(r), "strict-call-with-null-argument-is-null")
 }
